@@ -1,1 +1,399 @@
-pub fn run(_args: &[String]) { unimplemented!() }
+//! C03b / C08b / C11 / C04(i): dependency-graph corpus x run-time placements x base spellings.
+//! One real `export_all*` per case; then (C11) the set of touched paths must be exactly the
+//! expected locations of the types reachable by name, and (C03) every written file must be closed.
+
+use std::{
+    collections::{BTreeMap, BTreeSet},
+    path::{Path, PathBuf},
+};
+
+use serde_json::{json, Value};
+use ts_rs::__verif as hooks;
+use tsmodel::paths::{join, normalize, resolve_spec, spec_syntax_errors};
+
+use crate::{
+    common::{
+        arg_value, clear_places, files_of, guarded, mtimes, set_place, snapshot, Node, Report,
+        Scratch, Slice, TypeInfo,
+    },
+    corpus,
+};
+
+pub const PLACEMENTS: &[Option<&str>] = &[
+    None,
+    Some("d/"),
+    Some("s.ts"),
+    Some("d/x.ts"),
+    Some("../up/"),
+    Some("d/e/"),
+];
+
+pub fn loc_of(name: &str, placement: Option<&str>) -> String {
+    match placement {
+        None => format!("{name}.ts"),
+        Some(p) if p.ends_with('/') => format!("{p}{name}.ts"),
+        Some(p) => p.to_owned(),
+    }
+}
+
+struct BaseCfg {
+    label: &'static str,
+    /// (TS_RS_EXPORT_DIR, argument of export_all_to or None for export_all, directory relative to wd)
+    make: fn(&Path) -> (Option<String>, Option<String>, &'static str),
+}
+
+const BASES: &[BaseCfg] = &[
+    BaseCfg { label: "default", make: |_| (None, None, "bindings") },
+    BaseCfg { label: "to-rel-dotted", make: |_| (None, Some("./x/../out".into()), "out") },
+    BaseCfg { label: "env-rel-deep", make: |_| (Some("out/deep".into()), None, "out/deep") },
+    BaseCfg { label: "env-abs", make: |wd| (Some(wd.join("out").to_string_lossy().into_owned()), None, "out") },
+    BaseCfg { label: "to-abs", make: |wd| (None, Some(wd.join("out").to_string_lossy().into_owned()), "out") },
+    BaseCfg { label: "to-trailing-slash", make: |_| (None, Some("out/".into()), "out") },
+    BaseCfg { label: "env-dot-prefixed", make: |_| (Some("./out".into()), None, "out") },
+];
+
+const BUILTIN: &[&str] = &["Array", "Record"];
+
+pub struct Table {
+    pub by_name: BTreeMap<String, (TypeInfo, &'static str)>,
+}
+
+pub fn closure_by_name(root: &TypeInfo, table: &Table) -> Result<(BTreeSet<String>, Vec<String>), String> {
+    let mut seen: BTreeSet<String> = BTreeSet::new();
+    let mut unknown = vec![];
+    let mut work: Vec<(String, TypeInfo)> = vec![((root.ident)(), root.clone())];
+    while let Some((name, info)) = work.pop() {
+        if !seen.insert(name.clone()) {
+            continue;
+        }
+        let decl_s = guarded(|| Ok((info.decl)()))?;
+        let d = tsmodel::parse_decl(&decl_s).map_err(|e| format!("decl of {name} does not parse: {e:?}: {decl_s}"))?;
+        for n in tsmodel::decl_free_names(&d) {
+            if BUILTIN.contains(&n.as_str()) {
+                continue;
+            }
+            match table.by_name.get(&n) {
+                Some((ti, _)) => work.push((n.clone(), ti.clone())),
+                None => unknown.push(n),
+            }
+        }
+    }
+    Ok((seen, unknown))
+}
+
+pub fn run(args: &[String]) {
+    let thorough = args.iter().any(|a| a == "--thorough");
+    let slice = arg_value(args, "--slice").map_or(Slice { i: 0, n: 1 }, |s| Slice::parse(&s));
+    let esm = cfg!(feature = "import-esm");
+    let mut rep = Report::new("graph");
+    let roots = corpus::g::roots();
+    let others = corpus::g::others();
+    let mut scratch = Scratch::new("graph");
+
+    // placement alphabets per key
+    let p = |idx: &[usize]| -> Vec<Option<&'static str>> { idx.iter().map(|&i| PLACEMENTS[i]).collect() };
+    let keys: Vec<(&str, Vec<Option<&'static str>>)> = if thorough {
+        vec![
+            ("A", p(&[0, 1, 2, 3, 4, 5])),
+            ("B", p(&[0, 1, 2, 3, 4, 5])),
+            ("C", p(&[0, 1, 2, 3, 4])),
+            ("B2", p(&[0, 2, 4])),
+            ("G", p(&[0, 3, 2])),
+            ("K", p(&[0, 2])),
+            ("Y", p(&[0, 2])),
+        ]
+    } else {
+        vec![
+            ("A", p(&[0, 1, 2, 3, 4, 5])),
+            ("B", p(&[0, 1, 2, 3, 4, 5])),
+            ("C", p(&[0, 2, 1])),
+            ("B2", p(&[0, 2])),
+            ("G", p(&[0, 3])),
+            ("K", p(&[0])),
+            ("Y", p(&[0, 2])),
+        ]
+    };
+    let bases: Vec<&BaseCfg> = if thorough { BASES.iter().collect() } else { BASES[..2].iter().collect() };
+    let pre_kinds: &[&str] = if thorough { &["none", "unrelated", "at-targets"] } else { &["unrelated"] };
+
+    // all assignments
+    let mut assigns: Vec<Vec<Option<&'static str>>> = vec![vec![]];
+    for (_, alpha) in &keys {
+        let mut next = vec![];
+        for a in &assigns {
+            for x in alpha {
+                let mut b = a.clone();
+                b.push(*x);
+                next.push(b);
+            }
+        }
+        assigns = next;
+    }
+    rep.count("placement_assignments", assigns.len() as u64);
+    rep.count("roots", roots.len() as u64);
+
+    let mut case_no = 0usize;
+    for (ri, root) in roots.iter().enumerate() {
+        for assign in &assigns {
+            case_no += 1;
+            if !slice.mine(case_no) {
+                continue;
+            }
+            clear_places();
+            let mut place_of: BTreeMap<&str, Option<&'static str>> = BTreeMap::new();
+            for ((k, _), v) in keys.iter().zip(assign) {
+                set_place(k, *v);
+                place_of.insert(k, *v);
+            }
+            let mut table = Table { by_name: BTreeMap::new() };
+            for (k, ti) in &others {
+                table.by_name.insert((ti.ident)(), (ti.clone(), k));
+            }
+            table.by_name.insert("A".into(), (root.clone(), "A"));
+            // reachable types, by name
+            let (closure, unknown) = match closure_by_name(root, &table) {
+                Ok(c) => c,
+                Err(e) => {
+                    rep.violation(json!({"prop": "C11", "check": "declaration-unreadable", "root": root.rust}), json!({"error": e}));
+                    continue;
+                }
+            };
+            if !unknown.is_empty() {
+                rep.violation(
+                    json!({"prop": "C03", "check": "free-name-is-no-known-type", "root": root.rust}),
+                    json!({"names": unknown}),
+                );
+            }
+            let locs: BTreeMap<String, String> = closure
+                .iter()
+                .map(|n| {
+                    let key = table.by_name[n].1;
+                    (n.clone(), loc_of(n, place_of[key]))
+                })
+                .collect();
+            rep.distinct.insert(format!("{}|{:?}", root.rust, locs));
+            for base in &bases {
+                for pre in pre_kinds {
+                    rep.evaluations += 1;
+                    one_case(&mut rep, &mut scratch, root, ri, &table, &closure, &locs, base, pre, esm, assign);
+                }
+            }
+        }
+    }
+    clear_places();
+    std::env::remove_var("TS_RS_EXPORT_DIR");
+    drop(scratch);
+    rep.finish();
+}
+
+#[allow(clippy::too_many_arguments)]
+fn one_case(
+    rep: &mut Report,
+    scratch: &mut Scratch,
+    root: &TypeInfo,
+    _ri: usize,
+    table: &Table,
+    closure: &BTreeSet<String>,
+    locs: &BTreeMap<String, String>,
+    base: &BaseCfg,
+    pre: &str,
+    esm: bool,
+    assign: &[Option<&'static str>],
+) {
+    let wd0 = scratch.fresh();
+    // work two levels down so that `../up/` placements stay inside the scratch directory
+    let wd = wd0.join("w");
+    std::fs::create_dir_all(wd.join("x")).unwrap();
+    std::env::set_current_dir(&wd).unwrap();
+    let (env, to, d) = (base.make)(&wd);
+    match &env {
+        Some(v) => std::env::set_var("TS_RS_EXPORT_DIR", v),
+        None => std::env::remove_var("TS_RS_EXPORT_DIR"),
+    }
+    hooks::reset_registry();
+    let wd_s = wd.to_string_lossy().into_owned();
+    let abs_of = |loc: &str| normalize(&join(&join(&wd_s, d), loc)).expect("inside scratch");
+    let expected: BTreeMap<String, String> = locs.iter().map(|(n, l)| (abs_of(l), n.clone())).collect::<Vec<_>>()
+        .into_iter().fold(BTreeMap::new(), |mut m, (p, n)| { m.entry(p).or_insert_with(String::new).push_str(&format!("{n} ")); m });
+    let expected_paths: BTreeSet<String> = expected.keys().cloned().collect();
+    // members per file
+    let mut members: BTreeMap<String, BTreeSet<String>> = BTreeMap::new();
+    for (n, l) in locs {
+        members.entry(abs_of(l)).or_default().insert(n.clone());
+    }
+    match pre {
+        "none" => {}
+        "unrelated" => {
+            let dd = wd.join(d);
+            std::fs::create_dir_all(dd.join("keep/me")).unwrap();
+            std::fs::write(dd.join("keep/me/notes.txt"), "unrelated").unwrap();
+            std::fs::write(dd.join("Unrelated.ts"), "export type Unrelated = 1;\n").unwrap();
+            std::fs::write(wd.join("outside.txt"), "outside").unwrap();
+        }
+        "at-targets" => {
+            for p in &expected_paths {
+                std::fs::create_dir_all(Path::new(p).parent().unwrap()).unwrap();
+                std::fs::write(p, "stale {{{").unwrap();
+            }
+        }
+        _ => unreachable!(),
+    }
+    let before = snapshot(&wd0);
+    let before_m = mtimes(&wd0);
+    let r = match &to {
+        Some(s) => guarded(|| (root.export_all_to)(Path::new(s))),
+        None => guarded(|| (root.export_all)()),
+    };
+    let after = snapshot(&wd0);
+    let after_m = mtimes(&wd0);
+    let cls = |prop: &str, check: &str| {
+        let shared = members.values().any(|m| m.len() > 1);
+        json!({"prop": prop, "check": check, "root": root.rust, "root_feats": root.feats, "shared_file": shared})
+    };
+    let det = |extra: Value| {
+        json!({"placements": format!("{assign:?}"), "locations": locs, "base": base.label, "pre_existing": pre, "info": extra})
+    };
+    if let Err(e) = &r {
+        rep.violation(cls("C11", "export-fails"), det(json!({"error": e})));
+        let _ = std::fs::remove_dir_all(&wd0);
+        return;
+    }
+    // ---- C11: exactly the expected paths were created or modified --------------------------------
+    let rel = |abs: &str| abs.strip_prefix(&format!("{}/", wd0.to_string_lossy())).unwrap_or(abs).to_owned();
+    let expected_rel: BTreeSet<String> = expected_paths.iter().map(|p| rel(p)).collect();
+    let mut touched: BTreeSet<String> = BTreeSet::new();
+    for (k, v) in &after {
+        if matches!(v, Node::Dir) {
+            continue;
+        }
+        if before.get(k) != Some(v) || before_m.get(k) != after_m.get(k) {
+            touched.insert(k.clone());
+        }
+    }
+    for (k, v) in &before {
+        if matches!(v, Node::File(_)) && !after.contains_key(k) {
+            rep.violation(cls("C11", "pre-existing-file-removed"), det(json!({"path": k})));
+        }
+    }
+    if touched != expected_rel {
+        let missing: Vec<&String> = expected_rel.difference(&touched).collect();
+        let extra: Vec<&String> = touched.difference(&expected_rel).collect();
+        rep.violation(
+            cls("C11", if !missing.is_empty() { "expected-file-not-written" } else { "unexpected-file-touched" }),
+            det(json!({"missing": missing, "unexpected": extra, "reachable_by_name": closure})),
+        );
+    }
+    // stray empty directories outside the expected parents
+    for (k, v) in &after {
+        if matches!(v, Node::Dir) && before.get(k).is_none() {
+            rep.violation(cls("C11", "stray-empty-directory"), det(json!({"path": k})));
+        }
+    }
+    // the path a type reports for itself is the path that gets written
+    for n in closure {
+        let (ti, _) = &table.by_name[n];
+        let reported = (ti.output_path)().map(|p| p.to_string_lossy().into_owned());
+        if reported.as_deref() != Some(locs[n].as_str()) {
+            rep.violation(
+                cls("C11", "reported-output-path-differs"),
+                det(json!({"type": n, "reported": reported, "expected": locs[n]})),
+            );
+        }
+    }
+    // ---- C03 / C04 / C08: every written file is a closed, well-formed module ----------------------
+    let files = files_of(&after);
+    let mut parsed: BTreeMap<String, tsmodel::Module> = BTreeMap::new();
+    for p in &expected_paths {
+        let text = match files.get(&rel(p)) {
+            Some(t) => t,
+            None => continue,
+        };
+        match tsmodel::parse_module(text) {
+            Ok(m) => {
+                parsed.insert(p.clone(), m);
+            }
+            Err(e) => rep.violation(cls("C04", "file-does-not-parse"), det(json!({"file": rel(p), "error": format!("{e:?}"), "text": text}))),
+        }
+        if !text.starts_with(hooks::NOTE) {
+            rep.violation(cls("C04", "notice-missing"), det(json!({"file": rel(p), "text": text})));
+        }
+        if !text.ends_with('\n') {
+            rep.violation(cls("C04", "no-trailing-newline"), det(json!({"file": rel(p)})));
+        }
+    }
+    for (p, m) in &parsed {
+        let text = &files[&rel(p)];
+        if !m.layout_errors.is_empty() {
+            rep.violation(cls("C04", "module-layout"), det(json!({"file": rel(p), "problems": m.layout_errors, "text": text})));
+        }
+        let declared: Vec<String> = m.decls.iter().map(|d| d.name.clone()).collect();
+        let declared_set: BTreeSet<String> = declared.iter().cloned().collect();
+        let want = &members[p];
+        if declared.len() != declared_set.len() || &declared_set != want {
+            rep.violation(
+                cls("C04", "declared-names-differ-from-exported-types"),
+                det(json!({"file": rel(p), "declared": declared, "exported_here": want, "text": text})),
+            );
+        }
+        let mut used: BTreeSet<String> = BTreeSet::new();
+        for d in &m.decls {
+            for n in tsmodel::decl_free_names(d) {
+                if !BUILTIN.contains(&n.as_str()) && !declared_set.contains(&n) {
+                    used.insert(n);
+                }
+            }
+        }
+        let mut imported: BTreeMap<String, usize> = BTreeMap::new();
+        for i in &m.imports {
+            for n in &i.names {
+                *imported.entry(n.clone()).or_default() += 1;
+            }
+            let errs = spec_syntax_errors(&i.spec, esm);
+            if !errs.is_empty() {
+                rep.violation(cls("C08", "specifier-syntax"), det(json!({"file": rel(p), "spec": i.spec, "problems": errs})));
+                continue;
+            }
+            match resolve_spec(p, &i.spec, esm) {
+                Some(target) if &target == p => {
+                    rep.violation(cls("C03", "file-imports-from-itself"), det(json!({"file": rel(p), "spec": i.spec, "text": text})));
+                }
+                Some(target) => match parsed.get(&target) {
+                    None => rep.violation(
+                        cls("C03", "import-names-a-file-this-export-did-not-write"),
+                        det(json!({"file": rel(p), "spec": i.spec, "resolves_to": rel(&target), "written": expected_rel})),
+                    ),
+                    Some(tm) => {
+                        for n in &i.names {
+                            if !tm.decls.iter().any(|d| &d.name == n && d.exported) {
+                                rep.violation(
+                                    cls("C03", "imported-name-not-declared-in-target"),
+                                    det(json!({"file": rel(p), "spec": i.spec, "name": n, "target": rel(&target)})),
+                                );
+                            }
+                        }
+                    }
+                },
+                None => rep.violation(cls("C08", "specifier-climbs-above-root"), det(json!({"file": rel(p), "spec": i.spec}))),
+            }
+        }
+        for n in &used {
+            match imported.get(n) {
+                None => rep.violation(cls("C03", "free-name-not-imported"), det(json!({"file": rel(p), "name": n, "text": text}))),
+                Some(1) => {}
+                Some(k) => rep.violation(cls("C03", "name-imported-more-than-once"), det(json!({"file": rel(p), "name": n, "times": k, "text": text}))),
+            }
+        }
+        for n in imported.keys() {
+            if !used.contains(n) {
+                rep.violation(cls("C03", "unused-import"), det(json!({"file": rel(p), "name": n, "text": text})));
+            }
+        }
+        rep.count("files_checked", 1);
+        rep.count("import_statements_checked", m.imports.len() as u64);
+    }
+    if rep.samples.len() < 4 && closure.len() >= 3 {
+        rep.sample(json!({"root": root.rust, "locations": locs, "base": base.label, "pre_existing": pre, "files_written": expected_rel}));
+    }
+    let _ = std::fs::remove_dir_all(&wd0);
+    let _ = PathBuf::new();
+}
